@@ -261,8 +261,21 @@ def gen(props, tier, rng):
                         chunk = bytes([ctype, 0]) + clen.to_bytes(2, 'big') + bytes(fixed) + params
                         yield f'parse header SCTPParser 0 syn {lbits(sctp_common + chunk)}'
                         yield f'parse stack SCTP {lbits(sctp_common + chunk)}'
-            # a header type that is its own next protocol (tunnels): nesting deeper than the interpreter's recursion limit
+            # lists longer than the interpreter's recursion limit: parameters in one chunk, chunks in one packet, gap blocks and
+            # duplicate TSNs in one SACK, options in one CoAP message (a walk written recursively dies there)
             import sys
+            many = sys.getrecursionlimit() + 200
+            for ctype, fixed in ((1, 16), (2, 16), (4, 0), (5, 0), (6, 0), (9, 0)):
+                params = (bytes([0, 7, 0, 4]) if ctype not in (6, 9) else bytes([0, 1, 0, 4])) * many
+                chunk = bytes([ctype, 0]) + (4 + fixed + len(params)).to_bytes(2, 'big') + bytes(fixed) + params
+                yield f'parse header SCTPParser 0 syn {lbits(sctp_common + chunk)}'
+            yield f'parse stack SCTP {lbits(sctp_common + bytes([14, 0, 0, 4]) * many)}'
+            sack = bytes(8) + many.to_bytes(2, 'big') + many.to_bytes(2, 'big') + bytes(4) * many + bytes(4) * many
+            yield f'parse header SCTPParser 0 syn {lbits(sctp_common + bytes([3, 0]) + (4 + len(sack)).to_bytes(2, "big") + sack)}'
+            for mode in ('syn', 'sem'):
+                yield f'parse header CoAPParser 0 {mode} {lbits(bytes([0x40, 1, 0, 1]) + bytes([0x10]) * many)}'
+                yield f'parse header CoAPParser 0 {mode} {lbits(bytes([0x40, 1, 0, 1]) + bytes([0x01, 0x61]) * many + bytes([0xff, 1]))}'
+            # a header type that is its own next protocol (tunnels): nesting deeper than the interpreter's recursion limit
             depth = sys.getrecursionlimit() + 200
             for cfg, mod, attr, own, v6 in (('IPv4', 'microschc.protocol.ipv4', 'IPV4_SUPPORTED_PAYLOAD_PROTOCOLS', (4,), False),
                                             ('IPv6', 'microschc.protocol.ipv6', 'IPV6_SUPPORTED_PAYLOAD_PROTOCOLS', (41,), True)):
